@@ -1,6 +1,7 @@
 package main
 
 import (
+	"bytes"
 	"crypto/tls"
 	"fmt"
 	"net"
@@ -26,7 +27,7 @@ func init() {
 		Phases: func(tier string, seed int64) []Phase {
 			return []Phase{{Name: "pipelines", Run: c10Run}}
 		},
-		MinObserved: []string{"pipelines_checked", "requests_after_unbind_sent", "eof_withheld_until_release_observed", "pipelines_after_a_write_fault", "pipelines_with_an_earlier_handler_panic", "unbinds_with_unusual_message_ids", "stops_with_an_unbind_pipeline_in_the_read_buffer", "stops_between_reading_an_unbind_and_acting_on_it", "unbinds_on_servers_that_share_a_mux", "second_unbinds_sent_behind_the_first", "pipelines_with_bind_handlers_parked_when_the_unbind_arrives", "unbinds_carrying_controls", "pipelines_whose_earlier_handlers_stay_parked_long_after_the_unbind", "unbinds_on_a_server_whose_routes_were_registered_after_the_mux_was_attached", "pipelines_inside_a_starttls_upgraded_session"},
+		MinObserved: []string{"pipelines_checked", "requests_after_unbind_sent", "eof_withheld_until_release_observed", "pipelines_after_a_write_fault", "pipelines_with_an_earlier_handler_panic", "unbinds_with_unusual_message_ids", "stops_with_an_unbind_pipeline_in_the_read_buffer", "stops_between_reading_an_unbind_and_acting_on_it", "unbinds_on_servers_that_share_a_mux", "second_unbinds_sent_behind_the_first", "pipelines_with_bind_handlers_parked_when_the_unbind_arrives", "unbinds_carrying_controls", "pipelines_on_a_mux_whose_unbind_route_was_registered_twice", "pipelines_whose_earlier_handlers_stay_parked_long_after_the_unbind", "unbinds_on_a_server_whose_routes_were_registered_after_the_mux_was_attached", "pipelines_inside_a_starttls_upgraded_session"},
 	})
 }
 
@@ -516,6 +517,15 @@ func c10One(c *Ctx, pki *PKI, srvs map[string]*Srv, cs c10Case, r *Rand, idx int
 		rec("ext-starttls")(w, req)
 	}, gldap.ExtendedOperationStartTLS)
 	m.DefaultRoute(rec("default"))
+	if cs.Route && idx%4 == 3 {
+		// the unbind route is registered twice: the first registration is replaced, its handler never runs
+		m.Unbind(func(w *gldap.ResponseWriter, req *gldap.Request) {
+			mu.Lock()
+			unbindRuns += 100
+			mu.Unlock()
+		})
+		c.Count("pipelines_on_a_mux_whose_unbind_route_was_registered_twice", 1)
+	}
 	if cs.Route {
 		m.Unbind(func(w *gldap.ResponseWriter, req *gldap.Request) {
 			mu.Lock()
@@ -632,6 +642,11 @@ func c10One(c *Ctx, pki *PKI, srvs map[string]*Srv, cs c10Case, r *Rand, idx int
 		unbindCtls = []sber.Control{{OID: sber.OIDPaging, HasValue: true, Value: []byte{}}}
 	case 3:
 		unbindCtls = []sber.Control{{OID: "1.3.6.1.4.1.99999.7", Crit: true, HasValue: true, Value: []byte("x")}, {OID: "2.16.840.1.113730.3.4.5", HasValue: true, Value: []byte("soon")}}
+	case 4:
+		if idx%2 == 0 {
+			// a large one: the Unbind is a 40KB frame
+			unbindCtls = []sber.Control{{OID: "1.3.6.1.4.1.99999.8", HasValue: true, Value: bytes.Repeat([]byte("v"), 40000)}}
+		}
 	}
 	if unbindCtls != nil {
 		c.Count("unbinds_carrying_controls", 1)
